@@ -140,6 +140,7 @@ func TestVerif_C19_UseLimit(t *testing.T) {
 		}
 	}()
 	rapid.Check(t, func(rt *rapid.T) {
+		defer recoverWedged(rec)
 		txn := rapid.Bool().Draw(rt, "transactionalStorage")
 		if envs[txn] == nil || used[txn] >= 40 {
 			if envs[txn] != nil {
